@@ -31,6 +31,16 @@ type sym struct {
 	// possibly-set bits for kInt when known (maskOK); used to turn | into +
 	mask   uint64
 	maskOK bool
+	// byte provenance (exact simplification of encode/decode round trips):
+	// shrSrc/shrN: this value is (shrSrc >> shrN) for an unsigned 64-bit shrSrc.
+	// asmSrc/asmHave: this value is the sum over set bits k of asmHave of
+	// byte k of asmSrc placed at byte position k+asmOff (asmOff may be negative
+	// only transiently); when all 8 bytes are present at offset 0 the value is asmSrc.
+	shrSrc  string
+	shrN    uint
+	asmSrc  string
+	asmHave uint8
+	asmOff  int
 }
 
 func isSym(v value) bool { _, ok := v.(*sym); return ok }
@@ -536,6 +546,18 @@ func (i *interpreter) symBinop(op token.Token, t types.Type, x, y value) value {
 			if m, ok := maskOf(x, k); ok && !signed {
 				r.mask, r.maskOK = (m<<n)&typeMask(k), true
 			}
+			if sx, ok := x.(*sym); ok && sx.asmSrc != "" && !signed && bits == 64 && n%8 == 0 {
+				// all bytes must stay inside the word
+				top := 0
+				for b := 0; b < 8; b++ {
+					if sx.asmHave&(1<<b) != 0 {
+						top = b
+					}
+				}
+				if top+sx.asmOff+int(n/8) < 8 {
+					r.asmSrc, r.asmHave, r.asmOff = sx.asmSrc, sx.asmHave, sx.asmOff+int(n/8)
+				}
+			}
 			return r
 		}
 		if n >= bits {
@@ -547,6 +569,13 @@ func (i *interpreter) symBinop(op token.Token, t types.Type, x, y value) value {
 		r := &sym{term: "(div " + a + " " + pow2(n).String() + ")", kind: kInt, bk: k}
 		if m, ok := maskOf(x, k); ok && !signed {
 			r.mask, r.maskOK = m>>n, true
+		}
+		if sx, ok := x.(*sym); ok && !signed && bits == 64 && n%8 == 0 {
+			if sx.shrSrc != "" {
+				r.shrSrc, r.shrN = sx.shrSrc, sx.shrN+n
+			} else {
+				r.shrSrc, r.shrN = sx.term, n
+			}
 		}
 		return r
 	case token.AND, token.OR, token.XOR, token.AND_NOT:
@@ -599,6 +628,9 @@ func (i *interpreter) symBitop(op token.Token, k types.BasicKind, x, y value) va
 		if okx && oky && mx&my == 0 {
 			switch op {
 			case token.OR, token.XOR:
+				if r := mergeAsm(x.(*sym), y.(*sym), k); r != nil {
+					return r
+				}
 				return &sym{term: "(+ " + i.termOf(x) + " " + i.termOf(y) + ")", kind: kInt, bk: k, mask: mx | my, maskOK: true}
 			case token.AND:
 				return valueOfKind(k, big.NewInt(0))
@@ -664,6 +696,22 @@ func (i *interpreter) symBitop(op token.Token, k types.BasicKind, x, y value) va
 	panic("unreachable")
 }
 
+// mergeAsm combines two byte assemblies of the same source.
+func mergeAsm(a, b *sym, k types.BasicKind) *sym {
+	if a.asmSrc == "" || a.asmSrc != b.asmSrc || a.asmOff != b.asmOff || a.asmHave&b.asmHave != 0 {
+		return nil
+	}
+	bits, signed := kindBits(k)
+	if signed || bits != 64 {
+		return nil
+	}
+	have := a.asmHave | b.asmHave
+	if have == 0xFF && a.asmOff == 0 {
+		return &sym{term: a.asmSrc, kind: kInt, bk: k}
+	}
+	return &sym{term: "(+ " + a.term + " " + b.term + ")", kind: kInt, bk: k, mask: a.mask | b.mask, maskOK: a.maskOK && b.maskOK, asmSrc: a.asmSrc, asmHave: have, asmOff: a.asmOff}
+}
+
 // symUnop
 func (i *interpreter) symUnop(op token.Token, t types.Type, x *sym) value {
 	switch op {
@@ -693,12 +741,30 @@ func symConvInt(x *sym, to types.BasicKind) value {
 	flo, fhi := kindRange(from)
 	tlo, thi := kindRange(to)
 	if flo.Cmp(tlo) >= 0 && fhi.Cmp(thi) <= 0 {
-		return &sym{term: x.term, kind: kInt, bk: to, mask: x.mask, maskOK: x.maskOK}
+		r := &sym{term: x.term, kind: kInt, bk: to}
+		if _, fsigned := kindBits(from); !fsigned {
+			r.mask, r.maskOK = maskOf(x, from)
+		}
+		if _, tsigned := kindBits(to); !tsigned {
+			r.asmSrc, r.asmHave, r.asmOff = x.asmSrc, x.asmHave, x.asmOff
+		}
+		return r
 	}
 	r := &sym{term: wrapAny(x.term, to), kind: kInt, bk: to}
 	tb, tsigned := kindBits(to)
 	if !tsigned && x.maskOK && tb < 64 {
 		r.mask, r.maskOK = x.mask&((uint64(1)<<tb)-1), true
+	}
+	if to == types.Uint8 && (from == types.Uint64 || from == types.Uint || from == types.Uintptr) {
+		// byte k of a 64-bit source
+		src, n := x.term, uint(0)
+		if x.shrSrc != "" {
+			src, n = x.shrSrc, x.shrN
+		}
+		if n%8 == 0 && n < 64 {
+			kb := int(n / 8)
+			r.asmSrc, r.asmHave, r.asmOff = src, 1<<uint(kb), -kb
+		}
 	}
 	return r
 }
